@@ -264,6 +264,7 @@ fn replay(args: &[String]) -> Result<i32, String> {
     let case = checks::Case { prop: prop.clone(), n, ctor: g(2), recipe: g(3), filling: g(4), act: g(5), fault: g(6), extra: g(7) };
     let r = match prop.as_str() {
         _ if case.act == "zst" => with_n!(n, [zst::replay_zst], &case),
+        _ if case.act == "huge-full" => c19::replay_c19(&case),
         "C01" if case.extra == "io" => with_n!(n, [io::replay_io], &case),
         "C01" | "C02" | "C03" | "C11" | "C17" | "C20" => with_n!(n, [checks::replay_bfs], &case),
         "C05" | "C06" | "C10" => with_n!(n, [faults::replay_fault], &case),
